@@ -358,10 +358,39 @@ impl Monitor for UnicodeMonitor {
 
 // ------------------------------------------------------------------ C16 (session leg)
 
+/// If the bytes end in a lone true-colour SGR `ESC [ 38|48 ; 2 ; r ; g ; b m` returns (is foreground, rgb, length).
+fn lone_truecolor(recent: &std::collections::VecDeque<u8>) -> Option<(bool, (u8, u8, u8), usize)> {
+    let v: Vec<u8> = recent.iter().copied().collect();
+    let esc = v.iter().rposition(|b| *b == 0x1b)?;
+    let seq = &v[esc..];
+    if seq.len() < 12 || seq[1] != b'[' || *seq.last()? != b'm' {
+        return None;
+    }
+    let body = std::str::from_utf8(&seq[2..seq.len() - 1]).ok()?;
+    let parts: Vec<&str> = body.split(';').collect();
+    if parts.len() != 5 || parts[1] != "2" || !parts.iter().all(|p| !p.is_empty() && p.len() <= 3 && p.bytes().all(|b| b.is_ascii_digit())) {
+        return None;
+    }
+    let fg = match parts[0] {
+        "38" => true,
+        "48" => false,
+        _ => return None,
+    };
+    let n: Vec<u32> = parts[2..].iter().filter_map(|p| p.parse().ok()).collect();
+    if n.len() != 3 || n.iter().any(|x| *x > 255) {
+        return None;
+    }
+    Some((fg, (n[0] as u8, n[1] as u8, n[2] as u8), seq.len()))
+}
+
 pub struct PaletteMonitor {
     reach: Reach,
     snapshot: Vec<(u8, u8, u8)>,
     armed: bool,
+    /// ANSI sessions: the parser's coarse state after the previous byte (hook), and the stream position of the
+    /// last ESC that was delivered in ground state
+    prev_code: u8,
+    ground_esc_at: u64,
 }
 
 impl PaletteMonitor {
@@ -371,6 +400,8 @@ impl PaletteMonitor {
             reach: Reach::new(t),
             snapshot: (0..n).map(|i| s.buf.palette.get_rgb(i as u32)).collect(),
             armed: true,
+            prev_code: 0,
+            ground_esc_at: u64::MAX,
         }
     }
 }
@@ -378,9 +409,46 @@ impl PaletteMonitor {
 impl Monitor for PaletteMonitor {
     fn after(&mut self, s: &Session, at: usize, r: &EvResult, stats: &mut RunStats) -> Option<Violation> {
         self.reach.observe(s, r, stats);
-        let EvResult::Byte(_, _) = r else { return None };
-        if s.osc_byte_seen {
-            // OSC 4 is the one legitimate way for a stream to redefine an index; it needs ']'
+        let EvResult::Byte(byte, _) = r else { return None };
+        let code = if let ParserBox::Ansi(p) = &s.parser { Some(p.verif_state_code()) } else { None };
+        if let Some(code) = code {
+            // ANSI sessions: an OSC string is the one legitimate way for a stream to redefine an index. Whatever
+            // the palette looks like after a byte delivered inside one (its terminator included) is the new baseline.
+            let prev = self.prev_code;
+            self.prev_code = code;
+            if *byte == 0x1b && prev == 0 {
+                self.ground_esc_at = s.bytes_delivered;
+            }
+            if prev == 2 || code == 2 {
+                let pal = &s.buf.palette;
+                self.snapshot = (0..pal.len()).map(|i| pal.get_rgb(i as u32)).collect();
+                stats.count("palette_rebaselined_inside_osc");
+                return None;
+            }
+            // a lone true-colour request (ESC [ 38|48 ; 2 ; r ; g ; b m) that started in ground state adds a colour:
+            // the index the cursor now carries must resolve to exactly that colour
+            if *byte == b'm' && code == 0 {
+                if let Some((fg, rgb, len)) = lone_truecolor(&s.recent) {
+                    // (with iCE colours on, the cursor's attribute view folds the blink flag into backgrounds below 8:
+                    // backgrounds are only looked at with iCE colours off)
+                    if s.bytes_delivered + 1 >= len as u64 && self.ground_esc_at == s.bytes_delivered + 1 - len as u64 && (fg || !s.caret.ice_mode()) {
+                        stats.count("truecolor_requests_checked");
+                        let a = s.caret.get_attribute();
+                        let idx = if fg { a.get_foreground() } else { a.get_background() };
+                        let have = s.buf.palette.get_rgb(idx);
+                        if have != rgb {
+                            return Some(inv(
+                                "C16",
+                                "truecolor_resolves_wrong",
+                                format!("the stream asked for {} {rgb:?}; the cursor now carries index {idx}, which resolves to {have:?}", if fg { "foreground" } else { "background" }),
+                                at,
+                            ));
+                        }
+                    }
+                }
+            }
+        } else if s.osc_byte_seen {
+            // other emulations: no state hook; OSC needs ']'
             if self.armed {
                 self.armed = false;
                 stats.count("palette_monitor_disarmed_by_osc_byte");
